@@ -196,7 +196,7 @@ def native_replay(pid, rec, scratch):
         if body is None:
             continue
         test_file = os.path.join(scratch.dir, "kv_native_%d.rs" % abs(hash(ob.name)))
-        open(test_file, "w").write("use super::*;\n#[test]\nfn kv_native_replay() {\n%s\n}\n" % body)
+        open(test_file, "w").write("#![allow(dead_code)]\nuse super::*;\n%s\n#[test]\nfn kv_native_replay() {\n%s\n}\n" % (getattr(gen, "prelude", ""), body))
         target = os.path.join(scratch.dir, mount)
         src0 = open(target).read()
         open(target, "a").write('\n#[cfg(test)] #[path = "%s"] mod kv_native_replay_mod;\n' % test_file)
@@ -206,6 +206,8 @@ def native_replay(pid, rec, scratch):
                 p = subprocess.run(["cargo", "test", "--offline", "--lib", "--target-dir", os.path.join(scratch.dir, "td-native")] + flag +
                                    ["kv_native_replay"], cwd=scratch.dir, env=core.ENV, stdout=subprocess.PIPE, stderr=subprocess.STDOUT, timeout=1800)
                 out = p.stdout.decode(errors="replace")
+                if "test result:" not in out:
+                    return dict(reproduced=False, mode="native-eval", path=path, detail="native test did not build: " + out[-400:])
                 results[profile] = dict(failed=("panicked at" in out and "FAILED" in out), tail=out[-600:])
         finally:
             open(target, "w").write(src0)
